@@ -321,7 +321,7 @@ pub fn history(enc: &'static Encoding, prof: Profile) -> impl Strategy<Value = D
         if w < prof.bom_prefix_weight {
             stream.extend_from_slice(gen::BOMISH[pick(bomx, gen::BOMISH.len())]);
         }
-        stream.extend_from_slice(&gen::toks_to_bytes(algo, &toks));
+        stream.extend_from_slice(&gen::toks_to_bytes(algo, &gen::repeat_toks(&toks, ((bomx >> 12) as u16) ^ ((w as u16) << 3))));
         let mode = prof.modes[m as usize % prof.modes.len()];
         let sink = prof.sinks[s as usize % prof.sinks.len()];
         let n = stream.len();
